@@ -33,6 +33,8 @@ def classify_exc(exc: BaseException) -> str:
     from semantiva.exceptions import InvalidNodeParameterError, PipelineConfigurationError
 
     msg = str(exc)
+    if type(exc).__name__ == "VAbort":
+        return "abort"
     if isinstance(exc, (InvalidNodeParameterError, PipelineConfigurationError)):
         return "build"
     if isinstance(exc, TypeError) and msg.startswith("Incompatible data type for Node"):
